@@ -196,4 +196,21 @@ CHECKS["C13"] = {
             "index expression of the recompiled kernels",
 }
 
+CHECKS["C16"] = {
+    "engines": "py",
+    "technique": "runtime monitoring: reference evaluation (structural "
+                 "monomial probing, nearest-anchor law, layer-by-layer "
+                 "network, published equations) on every call of "
+                 "Controller.controller / System.equations; generated ANN "
+                 "source executed for hundreds of architectures",
+    "text": "All bundled controller blueprints and the three systems are "
+            "called thousands of times and compared with the documented "
+            "functions; the polynomial controllers are probed structurally "
+            "so that a missing monomial or unused parameter shows; ANN "
+            "factories are exercised over random architectures (compiled "
+            "and interpreted) incl. cache-neighbour architectures; inputs "
+            "are compared bitwise. Held on the calls made.",
+    "note": TB,
+}
+
 NOT_APPLICABLE = {}
